@@ -58,3 +58,7 @@ func (m *Nitro) VerifCmp(which int, a []byte, aBorn, aDead uint32, b []byte, bBo
 
 // VerifSeed makes the writer's level generator deterministic.
 func (w *Writer) VerifSeed(seed int64) { w.rand = rand.New(rand.NewSource(seed)) }
+
+// VerifSetRefreshRate sets the refresh rate of the iterators Visitor and StoreToDisk create
+// (fixed at 10000 steps otherwise).
+func (cfg *Config) VerifSetRefreshRate(n int) { cfg.refreshRate = n }
